@@ -112,6 +112,10 @@ class SrtContext:
       is_underlined = style.is_element_underlined(element)
       font_color = style.get_font_color(element)
 
+      if element.get_style(StyleProperties.Color) == NamedColors.white.value:
+        # text in the default color is not enclosed in a tag
+        font_color = None
+
       # the tags enclose the text nodes of the span itself: nested spans carry their own computed
       # styles, which may set back to normal what an enclosing span has switched on
 
